@@ -20,6 +20,7 @@ type Loader struct {
 	spkgs     map[string]*ssa.Package
 	funcs     map[string]*ssa.Function // relKey -> function
 	typeCache map[string]types.Type
+	wrapperPkg map[*ssa.Function]*ssa.Package
 	mu        sync.Mutex
 	overlay   map[string][]byte
 }
@@ -53,7 +54,7 @@ func Load(repo string, patterns []string, overlay map[string][]byte) (*Loader, e
 		return nil, fmt.Errorf("package errors:\n%s", strings.Join(errs, "\n"))
 	}
 	prog, spkgs := ssautil.Packages(pkgs, ssa.NaiveForm)
-	ld := &Loader{repo: repo, prog: prog, pkgs: pkgs, spkgs: map[string]*ssa.Package{}, funcs: map[string]*ssa.Function{}, typeCache: map[string]types.Type{}, overlay: overlay}
+	ld := &Loader{repo: repo, prog: prog, pkgs: pkgs, spkgs: map[string]*ssa.Package{}, funcs: map[string]*ssa.Function{}, typeCache: map[string]types.Type{}, overlay: overlay, wrapperPkg: map[*ssa.Function]*ssa.Package{}}
 	for _, sp := range spkgs {
 		if sp == nil {
 			continue
@@ -65,10 +66,40 @@ func Load(repo string, patterns []string, overlay map[string][]byte) (*Loader, e
 		if fn.Pkg == nil || ld.spkgs[fn.Pkg.Pkg.Path()] == nil {
 			continue
 		}
-		if fn.Synthetic != "" {
-			continue
+		if fn.Synthetic != "" && !strings.HasPrefix(fn.Synthetic, "wrapper for") {
+			continue // promoted-method wrappers can be put under contract (what T inherits must satisfy T's contract)
 		}
 		ld.funcs[relKey(fn)] = fn
+	}
+	// promoted methods: the wrapper that T inherits from an embedded field can be put under contract
+	for _, sp := range ld.spkgs {
+		for _, m := range sp.Members {
+			t, ok := m.(*ssa.Type)
+			if !ok {
+				continue
+			}
+			if _, isStruct := t.Type().Underlying().(*types.Struct); !isStruct {
+				continue
+			}
+			for _, recv := range []types.Type{t.Type(), types.NewPointer(t.Type())} {
+				ms := prog.MethodSets.MethodSet(recv)
+				for k := 0; k < ms.Len(); k++ {
+					sel := ms.At(k)
+					if len(sel.Index()) <= 1 {
+						continue // declared directly on T
+					}
+					fn := prog.MethodValue(sel)
+					if fn == nil || !strings.HasPrefix(fn.Synthetic, "wrapper for") {
+						continue
+					}
+					key := sp.Pkg.Path() + "::" + fn.RelString(sp.Pkg)
+					if _, exists := ld.funcs[key]; !exists {
+						ld.funcs[key] = fn
+						ld.wrapperPkg[fn] = sp
+					}
+				}
+			}
+		}
 	}
 	return ld, nil
 }
